@@ -406,6 +406,7 @@ struct timespec* sentTime) {
       }
     }
     clockGettime(&m_lastSynReceiveTime);
+    m_crc = 0;  // not done by setState() when already in bs_ready, e.g. after a lone escape symbol
     return setState(bs_ready, m_state == bs_skip || m_remainLockCount > 0 ? result : RESULT_ERR_SYN);
   }
 
